@@ -1,5 +1,5 @@
 import OZ.DrvUtil
-import OZ.Model.Identity
+import OZ.Model.IdentityMon
 /-
 Driver for C15 (an RWA identity is verified only by valid claims from currently trusted issuers).
 
@@ -16,34 +16,22 @@ issuer ↦ topic set as a plain map, the claims an identity holds, per issuer th
 (key, scheme, topic, registry) tuples, nonces, revocations — updated from ACCEPTED op lines only,
 never through the model. Every `ver=` entry and every `verify` / `valid` outcome of the
 implementation must equal the property's condition evaluated on the ghost state.
+
+The monitor itself (`checkCore`, on parsed values), the universe, the symbolic signature oracle and
+the model-side step `stepM` live in OZ/Model/IdentityMon.lean; OZ/Props/C15Mon.lean proves the monitor
+silent on every model trace. This file only parses (`parseOp`, `parseObs`) and prints (`dump`).
+String-level parts NOT covered by that theorem (trusted): `parseOp` / `parseClaim` / `parseObs`
+(incl. `afterTag`: the text after the `ok` / `err` tag is the same function `dump` of the model-side
+state whatever the tag; `natList` of the printed `ver=` field gives back `verOf`), and the
+`site=identity.parse` message for an op line that does not parse.
 -/
 namespace OZ.Drv.C15
-open OZ.Drv OZ.Host OZ.Identity OZ.ClaimIssuer
+open OZ.Drv OZ.Host OZ.Identity OZ.ClaimIssuer OZ.Identity.Mon
 
-def REGS : List Nat := [0, 1]
-def ISSUERS : List Nat := [4, 5, 6]
-def ISSUER_CANDS : List Nat := [4, 5, 6, 7, 8]
-def IDS : List Nat := [8, 9]
-def ID_CANDS : List Nat := [8, 9, 10]
-def ACCOUNTS : List Nat := [11, 12, 13]
 def TOPICS : List Nat := [1, 2, 3, 7]
 def SCHEMES : List Nat := [101, 102, 103, 111, 112, 113]
-/-- the verifier (algorithm) a scheme number of the harness issuer selects; 0 = none -/
-def algOf (scheme : Nat) : Nat :=
-  if scheme = 101 ∨ scheme = 111 then 101 else if scheme = 102 ∨ scheme = 112 then 102
-  else if scheme = 103 ∨ scheme = 113 then 103 else 0
 def KEYS : List Nat := [1, 2, 3, 4, 5, 6]
-def TS0 : Nat := 1700000000
-
-/-- symbolic signature bytes -/
-structure SymSig where
-  ok : Bool          -- verifies (Rust crates) under the embedded key over `msg`, algorithm `ns`
-  ns : Nat
-  msg : Msg
-  tag : Nat          -- names the (sig_data, data) byte strings in the dumps
-  deriving Repr
-
-def symVerify : Verifier SymSig := fun scheme _pk m s => s.ok && s.ns == algOf scheme && decide (s.msg = m)
+def ID_CANDS : List Nat := [8, 9, 10]
 
 /-! ### parsing -/
 
@@ -128,18 +116,6 @@ def parseOp (ws : List String) : Option (Op SymSig) :=
 
 /-! ### model side -/
 
-structure M where
-  w : World SymSig
-  rv : List (Nat × Nat × Nat × List Nat)     -- revocation triples seen in revoke op lines
-
-def initWorld : World SymSig :=
-  { env := { network := 0, timestamp := TS0 },
-    regs := fun a => if a = 0 ∨ a = 1 then some Reg.empty else none,
-    irs := Irs.empty,
-    ids := fun a => if a = 8 ∨ a = 9 then some IdStore.empty else none,
-    issuers := fun a => if a = 4 ∨ a = 5 ∨ a = 6 then some Issuer.empty else none,
-    vCti := none, vIrs := false }
-
 def sn (l : List Nat) : String := showList toString l
 def optS (o : Option String) : String := o.getD "x"
 def orDash (l : List String) : String := if l.isEmpty then "-" else ";".intercalate l
@@ -172,236 +148,41 @@ def dumpIssuer (i : Nat) (s : Issuer) (rv : List (Nat × Nat × Nat × List Nat)
     s!"{x.2.1}.{x.2.2.1}.{toHex x.2.2.2}:{if isClaimRevoked s x.2.1 x.2.2.1 x.2.2.2 then 1 else 0}")
   s!"{";".intercalate ks}/{orDash ps}/{orDash ns}/{orDash rvs}"
 
-def isOk {ε α : Type} : Except ε α → Bool
-  | .ok _ => true
-  | .error _ => false
-
 def dump (m : M) : String :=
   let w := m.w
   let regs := REGS.map (fun r => s!" R{r}={optS ((w.regs r).map dumpReg)}")
   let ids := IDS.map (fun d => s!" D{d}={optS ((w.ids d).map dumpId)}")
   let iss := ISSUERS.map (fun i => s!" I{i}={optS ((w.issuers i).map (fun s => dumpIssuer i s m.rv))}")
-  let ver := ACCOUNTS.map (fun a => if isOk (verifyIdentity symVerify w a) then 1 else 0)
+  let ver := verOf w
   s!"ts={w.env.timestamp} cti={optS (w.vCti.map toString)} virs={if w.vIrs then "2" else "x"}" ++
     "".intercalate regs ++ s!" irs={dumpIrs w.irs}" ++ "".intercalate ids ++ "".intercalate iss ++ s!" ver={sn ver}"
 
-def trackRv (rv : List (Nat × Nat × Nat × List Nat)) (op : Op SymSig) : List (Nat × Nat × Nat × List Nat) :=
-  match op with
-  | .revoke i d t data _ => if rv.contains (i, d, t, data) ∨ ¬ ISSUERS.contains i then rv else rv ++ [(i, d, t, data)]
-  | _ => rv
-
+/-- model side: `stepM` (OZ/Model/IdentityMon.lean) runs the model with the host's rollback; the
+observation is the tag and the dump of the resulting driver state -/
 def stepLine (m : M) (line : String) : M × String :=
   match parseOp (words line) with
   | none => (m, "bad-op")
   | some op =>
-    let m1 : M := { m with rv := trackRv m.rv op }
-    match applyOp symVerify m1.w op with
-    | .ok w' => let m2 : M := { m1 with w := w' }; (m2, "ok " ++ dump m2)
-    | .error _ => (m1, "err " ++ dump m1)
+    match stepM m op with
+    | (m', true) => (m', "ok " ++ dump m')
+    | (m', false) => (m', "err " ++ dump m')
 
-/-! ### monitor: ghost state at the level of the property -/
-
-structure GClaim where
-  topic : Nat
-  scheme : Nat
-  issuer : Nat
-  sl : Nat
-  pk : Nat
-  sig : SymSig
-  data : List Nat
-
-structure G where
-  ts : Nat
-  cti : Option Nat
-  virs : Bool
-  req : List (Nat × Nat)                                 -- (registry, required topic)
-  trust : List ((Nat × Nat) × List Nat)                  -- (registry, issuer) ↦ topic set
-  ident : List (Nat × Nat)                               -- account ↦ identity
-  claims : List ((Nat × Nat × Nat) × GClaim)             -- (identity, id issuer, id topic) ↦ claim
-  keys : List (Nat × Nat × Nat × Nat × Nat)              -- (issuer, key, scheme, topic, registry)
-  removed : List (Nat × Nat × Nat × Nat)                 -- (issuer, key, scheme, topic) whose last
-                                                         -- authorisation was taken back by remove_key
-  nonce : List ((Nat × Nat × Nat) × Nat)                 -- (issuer, identity, topic) ↦ bumps
-  revoked : List ((Nat × Nat × Nat × List Nat) × Bool)   -- (issuer, identity, topic, data) ↦ flag
-  prev : String
-
-def G.init : G :=
-  { ts := TS0, cti := none, virs := false, req := [], trust := [], ident := [], claims := [], keys := [], removed := [],
-    nonce := [], revoked := [], prev := "" }
-
-def assocSet {κ ν : Type} [BEq κ] (l : List (κ × ν)) (k : κ) (v : ν) : List (κ × ν) :=
-  (k, v) :: l.filter (fun p => !(p.1 == k))
-def assocDel {κ ν : Type} [BEq κ] (l : List (κ × ν)) (k : κ) : List (κ × ν) := l.filter (fun p => !(p.1 == k))
-def assocGet {κ ν : Type} [BEq κ] (l : List (κ × ν)) (k : κ) : Option ν := (l.find? (fun p => p.1 == k)).map (·.2)
-
-def PClaim.toG (p : PClaim) : GClaim :=
-  { topic := p.topic, scheme := p.scheme, issuer := p.issuer, sl := p.sl, pk := p.pk, sig := p.sig, data := p.data }
-
-/-- effect of an ACCEPTED operation, at the level of the property -/
-def G.update (g : G) (ws : List String) : G :=
-  match ws with
-  | "id" :: kind :: rest =>
-    let n := fun k => (kvNat? rest k).getD 0
-    let ts := natList ((kv? rest "ts").getD "-")
-    match kind with
-    | "add_topic" => { g with req := (n "r", n "t") :: g.req }
-    | "remove_topic" =>
-      { g with req := g.req.filter (fun p => !(p == (n "r", n "t"))),
-               trust := g.trust.map (fun p => if p.1.1 = n "r" then (p.1, p.2.filter (· ≠ n "t")) else p) }
-    | "add_issuer" | "update_issuer" => { g with trust := assocSet g.trust (n "r", n "i") ts }
-    | "remove_issuer" => { g with trust := assocDel g.trust (n "r", n "i") }
-    | "irs_add" | "irs_modify" => { g with ident := assocSet g.ident (n "a") (n "d") }
-    | "irs_remove" => { g with ident := assocDel g.ident (n "a") }
-    | "irs_recover" =>
-      match assocGet g.ident (n "a") with
-      | some d => { g with ident := assocSet (assocDel g.ident (n "a")) (n "b") d }
-      | none => g
-    | "add_claim" =>
-      match parseClaim rest with
-      | some c => { g with claims := assocSet g.claims (n "d", c.issuer, c.topic) c.toG }
-      | none => g
-    | "raw_put" =>
-      match parseClaim rest with
-      | some c => { g with claims := assocSet g.claims (n "d", n "ci", n "ct") c.toG }
-      | none => g
-    | "remove_claim" | "raw_del" => { g with claims := assocDel g.claims (n "d", n "ci", n "ct") }
-    | "allow_key" =>
-      { g with keys := (n "i", n "k", n "s", n "t", n "r") :: g.keys,
-               removed := g.removed.filter (fun x => !(x == (n "i", n "k", n "s", n "t"))) }
-    | "remove_key" =>
-      let keys' := g.keys.filter (fun x => !(x == (n "i", n "k", n "s", n "t", n "r")))
-      let left := keys'.any (fun x => x.1 == n "i" && x.2.1 == n "k" && x.2.2.1 == n "s" && x.2.2.2.1 == n "t")
-      { g with keys := keys',
-               removed := if left then g.removed else (n "i", n "k", n "s", n "t") :: g.removed }
-    | "invalidate" =>
-      { g with nonce := assocSet g.nonce (n "i", n "d", n "t") ((assocGet g.nonce (n "i", n "d", n "t")).getD 0 + 1) }
-    | "revoke" =>
-      { g with revoked := assocSet g.revoked (n "i", n "d", n "t", hexBytes ((kv? rest "data").getD "-")) (n "v" = 1) }
-    | "set_cti" => { g with cti := some (n "r") }
-    | "set_irs" => { g with virs := true }
-    | "time" | "advance" => { g with ts := n "ts" }   -- nothing else changes with time: revoked stays revoked, removed stays removed
-    | _ => g
-  | _ => g
-
-def wellFormed (scheme sl : Nat) : Bool :=
-  (algOf scheme = 101 ∧ sl = 96) ∨ (algOf scheme = 102 ∧ sl = 129) ∨ (algOf scheme = 103 ∧ sl = 133)
-
-def gValidUntil (data : List Nat) : Option Nat :=
-  if data.length < 16 then none else some (((data.drop 8).take 8).foldl (fun a b => a * 256 + b) 0)
-
-/-- the property's second sentence: the issuer confirms a claim only if it is signed, over this
-network, issuer, identity, topic, current nonce and data, by a key currently allowed for the topic
-(the ghost key registry is keyed by (issuer, KEY, SCHEME, topic, registry): the same key bytes under
-another scheme number are another signing key), and the claim is neither expired nor revoked -/
-def G.keyAllowed (g : G) (i pk scheme t : Nat) : Bool :=
-  g.keys.any (fun x => x.1 == i && x.2.1 == pk && x.2.2.1 == scheme && x.2.2.2.1 == t)
-
-def G.isRevoked (g : G) (i d t : Nat) (data : List Nat) : Bool :=
-  (assocGet g.revoked (i, d, t, data)).getD false
-
-/-- well-formed, genuinely signed over exactly (network, issuer, identity, topic, current nonce, data),
-not expired -/
-def G.coreOk (g : G) (i d t : Nat) (c : GClaim) : Bool :=
-  ISSUERS.contains i
-  && wellFormed c.scheme c.sl
-  && (c.sig.ok && c.sig.ns == algOf c.scheme)
-  && decide (c.sig.msg = { network := 0, issuer := i, identity := d, topic := t,
-                           nonce := (assocGet g.nonce (i, d, t)).getD 0, data := c.data })
-  && (match gValidUntil c.data with | some vu => decide (g.ts < vu) | none => false)
-
-/-- every condition but "signed by a key currently allowed for the topic" -/
-def G.confirmsButKey (g : G) (i d t : Nat) (c : GClaim) : Bool :=
-  g.coreOk i d t c && !g.isRevoked i d t c.data
-
-def G.confirms (g : G) (i d t : Nat) (c : GClaim) : Bool :=
-  g.confirmsButKey i d t c && g.keyAllowed i c.pk c.scheme t
-
-def G.trustedFor (g : G) (r i t : Nat) : Bool :=
-  match assocGet g.trust (r, i) with
-  | some ts => ts.contains t
-  | none => false
-
-/-- the property's first sentence -/
-def G.verifies (g : G) (a : Nat) : Bool :=
-  g.virs &&
-  match assocGet g.ident a, g.cti with
-  | some d, some r =>
-    REGS.contains r &&
-    (g.req.filter (fun p => p.1 == r)).all (fun p =>
-      ISSUER_CANDS.any (fun i =>
-        g.trustedFor r i p.2 && IDS.contains d &&
-        match assocGet g.claims (d, i, p.2) with
-        | some c => c.topic == p.2 && c.issuer == i && g.confirms i d p.2 c
-        | none => false))
-  | _, _ => false
+/-! ### monitor: parse, then `checkCore` (OZ/Model/IdentityMon.lean) -/
 
 def afterTag (obs : String) : String := " ".intercalate ((words obs).drop 1)
 
+def parseObs (obs : String) : Obs :=
+  { ok := (words obs).head? == some "ok", rest := afterTag obs,
+    ver := natList ((kv? (words obs) "ver").getD "-") }
+
 def check (g : G) (opl obs : String) : G × Option String :=
-  let ws := words opl
-  let ows := words obs
-  let ok : Bool := ows.head? == some "ok"
-  let rest := afterTag obs
-  let g1 := if ok then g.update ws else g
-  let g2 := { g1 with prev := rest }
-  let kind := (ws.drop 1).head?.getD ""
-  let ver := natList ((kv? ows "ver").getD "-")
-  let exp := ACCOUNTS.map (fun a => if g1.verifies a then 1 else 0)
-  let validFail : Option String :=
-    if kind = "valid" then
-      match parseClaim (ws.drop 2) with
-      | some c =>
-        let d := (kvNat? ws "d").getD 0
-        let want := g1.confirms c.issuer d c.topic c.toG
-        if ok ∧ ¬ want then
-          if g1.coreOk c.issuer d c.topic c.toG ∧ g1.keyAllowed c.issuer c.pk c.scheme c.topic
-              ∧ g1.isRevoked c.issuer d c.topic c.data then
-            some s!"site=identity.issuer.revoked_accepts issuer={c.issuer} identity={d} topic={c.topic}: is_claim_valid accepts a claim that was revoked and never un-revoked (now ts={g1.ts})"
-          else if g1.confirmsButKey c.issuer d c.topic c.toG then
-            if g1.removed.contains (c.issuer, c.pk, c.scheme, c.topic) then
-              some s!"site=identity.issuer.key_removed_accepts issuer={c.issuer} key={c.pk} scheme={c.scheme} topic={c.topic}: is_claim_valid accepts a claim signed by a (key, scheme) whose authorisation for the topic was removed"
-            else
-              some s!"site=identity.issuer.key_not_allowed_accepts issuer={c.issuer} key={c.pk} scheme={c.scheme} topic={c.topic}: is_claim_valid accepts a claim signed by a (key, scheme) not allowed for the topic"
-          else
-            some s!"site=issuer.valid.accepts issuer={c.issuer}: is_claim_valid accepts a claim that is not (signed over network, issuer, identity, topic, current nonce, data by an allowed key, unexpired, unrevoked)"
-        else if ¬ ok ∧ want then
-          if g1.removed.any (fun x => x.1 == c.issuer && x.2.1 == c.pk && x.2.2.1 != c.scheme) then
-            some s!"site=identity.issuer.key_kept_rejects issuer={c.issuer} key={c.pk} scheme={c.scheme} topic={c.topic}: is_claim_valid rejects a claim signed by a (key, scheme) still allowed for the topic after the same key was removed under another scheme"
-          else
-            some s!"site=issuer.valid.rejects issuer={c.issuer}: is_claim_valid rejects a claim meeting every condition"
-        else none
-      | none => some "site=identity.parse unparsable claim"
-    else none
-  let fail : Option String :=
-    if ¬ ok ∧ g.prev ≠ "" ∧ kind ≠ "revoke" ∧ rest ≠ g.prev then
-      some "site=identity.rollback a rejected operation changed an observable"
-    else if ver.length ≠ ACCOUNTS.length then some s!"site=identity.parse unparsable observation"
-    else if validFail.isSome then validFail
-    else
-      match (ACCOUNTS.zip (ver.zip exp)).find? (fun x => x.2.1 ≠ x.2.2) with
-      | some (a, got, _) =>
-        if got = 1 then
-          some s!"site=identity.verify.accepts account={a}: verification succeeds although some required topic has no valid claim from a currently trusted issuer"
-        else
-          some s!"site=identity.verify.rejects account={a}: verification fails although every required topic has a valid claim from a currently trusted issuer"
-      | none =>
-        if kind = "verify" then
-          let a := (kvNat? ws "a").getD 0
-          if ok ≠ g1.verifies a then some s!"site=identity.verify.op account={a} outcome differs from the property's condition"
-          else none
-        else if kind = "add_claim" ∧ ok then
-          -- an identity built from `add_claim` stores only claims its issuer confirmed
-          match parseClaim (ws.drop 2) with
-          | some c =>
-            if g.confirms c.issuer ((kvNat? ws "d").getD 0) c.topic c.toG then none
-            else some s!"site=identity.add_claim.accepts a claim its issuer does not confirm was stored"
-          | none => none
-        else none
-  (g2, fail)
+  match parseOp (words opl) with
+  | some op => checkCore g op (parseObs obs)
+  | none => ({ g with prev := afterTag obs }, some s!"site=identity.parse unparsable op line: {opl}")
 
 def machine : Machine where
   σ := M
-  init := fun _ => { w := initWorld, rv := [] }
+  init := fun _ => initM
   op := stepLine
   μ := G
   minit := fun _ => G.init
